@@ -25,6 +25,7 @@ FUZZ_RUNS = {"thorough": 20000}     # coverage-guided leg, 8 processes (vlib/fuz
 
 EXTRACTORS = ["year", "month", "day", "weekday", "isoweekday", "isoweek", "quarter"]
 TIME_EXTRACTORS = ["hour", "minute", "second", "microsecond"]
+TWELVE = "%m/%d/%Y %I:%M:%S %p"
 FORMATS = ["%Y-%m-%d", "%d.%m.%Y", "%Y-%m-%dT%H:%M:%S", "%Y-%m-%dT%H:%M:%S.%f", "%j", "%A %B"]
 EDGE_DATES = ["2020-12-31", "2021-01-03", "2021-01-04", "2024-02-29", "1969-12-31", "1970-01-01", "2015-12-28",
               "2016-01-03", "0001-01-01", "9999-12-31", "1999-12-31", "2000-01-01", "1900-02-28"]
@@ -82,8 +83,10 @@ def _dt_plan(draw, max_len):
         plan["kw"] = kw
     elif op == "roundtrip":
         # a format that carries every field of the unit, and years >= 1000 (strptime needs 4 digits)
-        plan["format"] = {"D": draw(st.sampled_from(["%Y-%m-%d", "%d.%m.%Y"])), "s": "%Y-%m-%dT%H:%M:%S"}.get(
-            unit, "%Y-%m-%dT%H:%M:%S.%f")
+        plan["format"] = {"D": draw(st.sampled_from(["%Y-%m-%d", "%d.%m.%Y"])),
+                          # the hour may be written on the 12-hour clock: the format still carries every field
+                          "s": draw(st.sampled_from(["%Y-%m-%dT%H:%M:%S", TWELVE]))}.get(
+            unit, draw(st.sampled_from(["%Y-%m-%dT%H:%M:%S.%f", "%Y-%m-%dT%H:%M:%S.%f", TWELVE + " .%f"])))
         if draw(st.integers(0, 5)):
             plan["vals"] = [v if v is None or int(v[:4]) >= 1000 else "2000" + v[4:] for v in vals]   # 2000 is a leap year: Feb 29 stays valid
     else:
@@ -258,8 +261,8 @@ def _check_dt(plan, ctx):
         if op == "roundtrip":
             unambiguous = all(o is None or o.year >= 1000 for o in objs) and (
                 fmt in ("%Y-%m-%d", "%d.%m.%Y") and unit == "D"
-                or fmt == "%Y-%m-%dT%H:%M:%S" and unit in ("D", "s")
-                or fmt == "%Y-%m-%dT%H:%M:%S.%f")
+                or fmt in ("%Y-%m-%dT%H:%M:%S", TWELVE) and unit in ("D", "s")
+                or fmt in ("%Y-%m-%dT%H:%M:%S.%f", TWELVE + " .%f"))
             if not unambiguous:
                 ctx.excl("format does not carry every field of the unit (or year < 1000)")
                 return
